@@ -885,8 +885,14 @@ func modeB(c *hx.Ctx) {
 	for _, v := range res.Violations {
 		c.Violation("C16 (Mode B, concurrent) "+v, map[string]interface{}{"mode": "B", "detail": v})
 	}
-	for _, v := range res.Inconclusive {
-		c.Inconclusive("Mode B: %s", v)
+	// single stress runs whose wall-clock watchdog fired (no quiescence within 60 s, history checker timeout) are left out of
+	// the verdict and counted; the check as a whole is inconclusive only if that happens to more than one run in twenty
+	c.CountN("modeB_runs_left_out_as_inconclusive", len(res.Inconclusive))
+	if len(res.Inconclusive) > 0 {
+		c.Set("modeB_inconclusive_runs", res.Inconclusive[:minInt(len(res.Inconclusive), 10)])
+	}
+	if len(res.Inconclusive)*20 > res.Runs+len(res.Inconclusive) {
+		c.Inconclusive("Mode B: %d of %d stress runs were inconclusive (first: %s)", len(res.Inconclusive), res.Runs, res.Inconclusive[0])
 	}
 	// race reports
 	logs, _ := filepath.Glob(filepath.Join(dir, "race*"))
@@ -1097,7 +1103,7 @@ func stressMain(args []string) {
 			wg.Wait()
 			atomic.StoreInt32(&faultsOn, 0)
 			// quiescence: every accepted operation anchored or expired (generous wall-clock watchdog => inconclusive)
-			deadline := time.Now().Add(20 * time.Second)
+			deadline := time.Now().Add(60 * time.Second)
 			quiet := false
 			for time.Now().Before(deadline) {
 				// quiet = nothing queued and no batch between the queue and its acknowledgement (the counter is raised before the
